@@ -171,6 +171,9 @@ def reshape(x, shape):
 
 @UnaryOp.make
 def astype(x, dtype):
+    if isinstance(x, numbers.Number):
+        # Python scalars, e.g. the bool obtained by comparing two Numbers.
+        return np.dtype(dtype).type(x).item()
     raise NotImplementedError
 
 
